@@ -149,10 +149,11 @@ func NewSchema(config SchemaConfig) (Schema, error) {
 //Add Implementations at Runtime..
 func (gq *Schema) AddImplementation() error {
 
-	// Keep track of all implementations by interface name.
-	if gq.implementations == nil {
-		gq.implementations = map[string][]*Object{}
-	}
+	// Rebuild the implementations by interface name (the type map is
+	// walked as a whole, so appending to the previous lists would list
+	// every implementation once per call).
+	gq.implementations = map[string][]*Object{}
+	gq.possibleTypeMap = nil
 	for _, ttype := range gq.typeMap {
 		if ttype, ok := ttype.(*Object); ok {
 			for _, iface := range ttype.Interfaces() {
